@@ -1148,6 +1148,17 @@ class Executor:
                 if self.report is not None:
                     self.report.fn(fn)
                 return None
+            # 3b second attempt of a check (vcheck/main.py): small helper predicates no kernel knows by name are followed instead of havoc'd
+            if fn is not None and AUTO_INLINE and self._auto_inlinable(callee, fn) and len(st.stack) < self.max_depth + 40:
+                nf = Frame(fn, next(self.fid_counter), dest=dest, ret_bb=ret_bb)
+                if len(fn.params) == len(args):
+                    for (p, _), v in zip(fn.params, args):
+                        st.store[(nf.fid, p)] = v
+                    st.stack.append(nf)
+                    AUTO_INLINED.add(fn.name)
+                    if self.report is not None:
+                        self.report.fn(fn)
+                    return None
             # 4 havoc
             res = self.havoc(st, callee, args, dty)
         if isinstance(res, tuple) and res and res[0] == "inline-wrap":
@@ -1203,6 +1214,24 @@ class Executor:
 
     inline_closure_calls = False
     stateful_next = False
+
+    def _auto_inlinable(self, callee, fn):
+        """an in-crate, non-recursive, small function that returns a Boolean or a field-less enum and whose name appears nowhere in the
+        checker's own sources (so no kernel hooks it, lists it as a guard or relies on its result being opaque)"""
+        if fn.kind != "fn" or "{closure" in fn.name or "<impl" in fn.name or len(fn.blocks) > 40 or not fn.ret:
+            return False
+        last = fn.name.split("::")[-1]
+        if last in _known_names():
+            return False
+        ret = fn.ret.strip()
+        if ret != "bool":
+            vs = self.enums.variants(ret) if hasattr(self.enums, "variants") else None
+            if not vs or any(v[1] != "unit" for v in vs):
+                return False
+        # not (directly) recursive
+        if any(s_[0] == "call" and re.sub(r"::<.*$", "", s_[2]).split("::")[-1] == last for sts in fn.blocks.values() for s_ in sts):
+            return False
+        return True
 
     def _closure_call(self, st, callee, args):
         """`<{closure@span} as Fn*<(A, B)>>::call*(closure, (a, b))` -> the closure's own MIR body with the argument tuple spread"""
@@ -1339,6 +1368,24 @@ def derives_from(ex, v, oid, depth=0, st=None):
     if isinstance(v, RefV):
         return derives_from(ex, v.v, oid, depth + 1, st)
     return False
+
+
+AUTO_INLINE = False
+AUTO_INLINED = set()
+_KNOWN = None
+
+
+def _known_names():
+    """identifiers that occur in the checker's sources"""
+    global _KNOWN
+    if _KNOWN is None:
+        import glob
+        txt = ""
+        here = os.path.dirname(os.path.abspath(__file__))
+        for p in glob.glob(os.path.join(here, "*.py")) + glob.glob(os.path.join(here, "props", "*.py")):
+            txt += open(p).read()
+        _KNOWN = set(re.findall(r"[A-Za-z_][A-Za-z0-9_]*", txt))
+    return _KNOWN
 
 
 class Infeasible(Exception):
